@@ -33,16 +33,19 @@ Fixpoint zombie_rounds (n : nat) : list label :=
 Definition zombie_shape (s : state) : Prop :=
   file s = Some 1%nat /\ nexti s = 2%nat /\ hb s 1%nat = HDone /\ cs s 1%nat = CDead /\
   hb s 0%nat = HSleep 0%nat 0 (now s + 5 * sec) /\
-  content s 1%nat = FMeta (Some sec) (Some (now s)).
+  content s 1%nat = FMeta (Some sec) (Some (now s)) /\
+  (forall t ec i, cs s t <> CCreated ec i).
 
 Lemma zombie_round_keeps s : zombie_shape s ->
   exists s', run cfg_nofix s zombie_round = Some s' /\ zombie_shape s' /\ now s' = now s + 5 * sec.
 Proof.
-  intros (Hf & Hn & H1 & Hc & H0 & Hct).
+  intros (Hf & Hn & H1 & Hc & H0 & Hct & Hncr).
   unfold zombie_round. cbn [run].
   assert (Ht : can_tick cfg_nofix s (5 * sec) = true).
   { unfold can_tick. rewrite Hn. cbn [seq forallb]. rewrite H0, H1. cbn [hb_allows delta cfg_nofix].
-    apply andb_true_iff. split; [reflexivity|]. cbn [andb]. rewrite andb_true_r. apply Z.leb_le. unfold sec. lia. }
+    apply andb_true_iff. split.
+    - apply andb_true_iff. split; [reflexivity|]. cbn [andb]. rewrite andb_true_r. apply Z.leb_le. unfold sec. lia.
+    - apply forallb_forall. intros t _. destruct (cs s t) eqn:E; try reflexivity. destruct (Hncr _ _ _ E). }
   cbn [step]. rewrite Ht. cbn [step hb now file content]. rewrite H0.
   replace (now s + 5 * sec <=? now s + 5 * sec) with true by (symmetry; apply Z.leb_refl).
   rewrite Hf, Hct. cbn [checks cfg_nofix andb]. cbn [step hb]. rewrite upd_eq.
@@ -78,9 +81,10 @@ Proof.
   destruct (run cfg_nofix init zombie_prefix) as [s0|] eqn:E; [|vm_compute in E; discriminate].
   exists s0. split; [reflexivity|].
   assert (Hs0 : zombie_shape s0 /\ (exists ec u, cs s0 2%nat = CSleep ec u)).
-  { revert E. vm_compute. intros E; injection E; intros <-. cbn. repeat split; eauto. }
+  { revert E. vm_compute. intros E; injection E; intros <-. cbn. repeat split; eauto.
+    intros [|[|[|t]]] ec i; cbn; discriminate. }
   destruct Hs0 as [Hs0 Hw]. split; [apply Hs0|]. split; [exact Hw|].
-  intros n. destruct (zombie_rounds_keep n s0 Hs0) as (s & R & (Hf & Hn & H1 & Hc & H0 & Hct) & N).
+  intros n. destruct (zombie_rounds_keep n s0 Hs0) as (s & R & (Hf & Hn & H1 & Hc & H0 & Hct & _) & N).
   exists s, 1%nat, (Some sec), (Some (now s)). repeat split; auto.
   unfold is_stale. apply Z.ltb_ge. cbn. lia.
 Qed.
